@@ -5,7 +5,7 @@ META = {
         "-d population, -n, byte-for-byte reproducibility, e2fsck -fn verdict on the produced image (whole tool)",
         "ext2fs_allocate_tables beyond 3 groups x 16 blocks, RAID stride placement (fs->stride != 0), bigalloc, pre-existing table "
         "locations (resize2fs / e2fsck callers), arbitrary pre-state bitmaps (only superblock/descriptor heads + one bad block); "
-        "mke2fs packed_allocate_tables",
+        "mke2fs packed_allocate_tables (harness packed_tables.c written, no verdict within 300 s at 3 groups x 16 blocks: not registered; while building it the double accounting with -G 1 was found by reading and shown with the built tools: DESIGN.md A.4 observed)",
         "write_inode_tables with metadata_csum (write_reserved_inodes is cut) and the sync_kludge flushes; the zeroing itself "
         "(ext2fs_zero_blocks2) is a recording stub",
         "ext2fs_initialize beyond 4 groups x 256 blocks; bigalloc; the 'blocks_per_group -= 8' retry for oversized inode requests; "
@@ -16,7 +16,7 @@ META = {
         "external journal devices (ext2fs_add_journal_device, write_journal_file on a mounted fs), mke2fs figure_journal_size / -J parsing",
         "orphan file: the real ext2fs_block_iterate3 / extent and indirect mapping code (driver stub), the real allocator (cluster model), "
         "the real CRC (mixing stub), files of more than 6 blocks, an orphan inode that is not zero on disk",
-        "res_gdt.c ext2fs_create_resize_inode (only ext2fs_list_backups, via C20's harness), mkquota.c, mk_hugefiles.c, create_inode.c, lib/e2p/feature.c",
+        "res_gdt.c ext2fs_create_resize_inode beyond 1 KiB blocks / 10 groups / 2 reserved GDT blocks and its existing-inode verification without sparse_super (no verdict in 300 s), mkquota.c, mk_hugefiles.c, create_inode.c, lib/e2p/feature.c",
     ],
 }
 BM_SRC = ["lib/ext2fs/gen_bitmap64.c", "lib/ext2fs/bitops.c", "lib/ext2fs/gen_bitmap.c",
@@ -42,6 +42,16 @@ def AT_UW(bpg, maxg):
             "ext2fs_mark_generic_bmap.0:%d" % (nb + 1), "ext2fs_mark_block_bitmap_range2.0:%d" % (nb + 1),
             "vf_spec_get_free.0:%d" % (nb + 1), "ext2fs_allocate_tables.0:%d" % (maxg + 1),
             "ext2fs_allocate_group_table.0:5"]
+
+RI_UW = ["ext2fs_create_resize_inode.0:11", "ext2fs_create_resize_inode.1:4", "ref_is_power.0:5"] + ["main.%d:257" % i for i in range(24)]
+
+def PT_UW(bpg, maxg):
+    nb = 1 + bpg * maxg
+    return ["main.%d:%d" % (i, nb + 1) for i in range(24)] + \
+           ["%s.0:%d" % (f, nb + 1) for f in ("ref_marked_in_group", "ext2fs_test_block_bitmap_range2", "ext2fs_mark_generic_bmap",
+                                              "ext2fs_mark_block_bitmap_range2", "ext2fs_find_first_zero_generic_bmap")] + \
+           ["packed_allocate_tables.%d:%d" % (i, maxg + 1) for i in range(3)] + \
+           ["ext2fs_get_free_blocks2.0:%d" % (2 * nb + 2), "ext2fs_block_alloc_stats_range.0:5"]
 
 import importlib.util as _ilu, os as _os
 def _list_backups():
@@ -147,6 +157,18 @@ HARNESSES = [
          bound="orphan file of 1..6 blocks (1 KiB), cluster ratio 4 / 1 (per query), 8 clusters with symbolic pre-state, allocator choice "
                "symbolic (any free cluster), k-th allocation may fail, one optional mapping-metadata slot, extents / metadata_csum / "
                "huge_file / existing-vs-new orphan inode / old size / csum seed symbolic"),
+    dict(name="resize_inode", src="resize_inode.c", extra_src=["lib/ext2fs/i_block.c", "lib/ext2fs/blknum.c"],
+         funcs=["ext2fs_create_resize_inode", "ext2fs_list_backups", "ext2fs_iblk_add_blocks", "ext2fs_iblk_set", "ext2fs_inode_size_set"],
+         configs=[{"MODE": 0, "SPARSE": 1}, {"MODE": 0, "SPARSE": 0}, {"MODE": 0, "SPARSE": 2, "DB": 255},
+                  {"MODE": 1, "SPARSE": 2},
+                  {"MODE": 1, "SPARSE": 2, "DB": 255, "_tier": "thorough"},
+                  {"MODE": 1, "SPARSE": 1, "FDB": 0, "DB": 3, "_tier": "thorough"}],
+         # {"MODE": 1, "SPARSE": 0} (existing inode, every group a backup: 9 entries per block) is not registered: no verdict within 300 s.
+         unwind=4, unwindset=RI_UW,
+         backends=["kissat", "default"], cap_quick=300,
+         bound="1 KiB blocks (256 addresses per block), 8192 blocks per group, 1..10 groups, 0..2 reserved GDT blocks, desc_blocks 1 / 3 / 255 "
+               "(255: the double-indirect slot index wraps), s_first_data_block 1 / 0, no sparse / sparse_super / sparse_super2 with symbolic "
+               "s_backup_bgs; pre-state: no resize inode, or an existing one with symbolic inode, double-indirect block and reserved GDT block contents"),
     dict(name="count_used", src="count_used.c", extra_src=BM_SRC,
          funcs=["ext2fs_count_used_blocks", "ext2fs_find_first_set_generic_bmap",
                 "ext2fs_find_first_zero_generic_bmap", "ba_find_first_set", "ba_find_first_zero"],
@@ -155,6 +177,25 @@ HARNESSES = [
                    ["ba_find_first_%s.%d:9" % (w, i) for w in ("set", "zero") for i in range(5)],
          backends=["default"],
          bound="bit-array bitmap of 8 blocks (first block 1), every content, every range start <= end"),
+]
+# NOT registered yet (kissat: no verdict within 300 s at BPG=16; needs shrinking): harness packed_tables.c
+_PENDING = [
+    dict(name="packed_tables", src="packed_tables.c",
+         extra_src=["lib/ext2fs/alloc.c", "lib/ext2fs/alloc_stats.c", "lib/ext2fs/blknum.c"],
+         funcs=["packed_allocate_tables", "ext2fs_new_block2", "ext2fs_new_block3", "ext2fs_get_free_blocks2", "ext2fs_clear_block_uninit",
+                "ext2fs_block_alloc_stats2", "ext2fs_block_alloc_stats_range", "ext2fs_group_of_blk2", "ext2fs_group_last_block2"],
+         configs=[dict(LGPF=l, BPG=16, MAXG=3, NG=ng, ITB=itb, _unwindset=PT_UW(16, 3), _tier=t)
+                  for l, ng, itb, t in ((1, 3, 2, "quick"), (2, 3, 1, "quick"), (1, 2, 3, "quick"), (4, 3, 3, "thorough"))],
+         # (LGPF=0, i.e. mke2fs -O flex_bg -G 1 -E packed_meta_blocks=1) is NOT registered: GENUINE DEFECT of the unchanged tree.
+         # ext2fs_initialize pre-charges 2 + inode_blocks_per_group blocks to every group when s_log_groups_per_flex == 0 and
+         # packed_allocate_tables charges the same tables again through ext2fs_block_alloc_stats*: PROP "bg_free_blocks_count ==
+         # group size - blocks of the group marked" fails (each group 2 + itb too low, s_free_blocks_count likewise).  Reproduced with
+         # the built tools: mke2fs -t ext4 -O flex_bg,^has_journal,^resize_inode -G 1 -E packed_meta_blocks=1 img 8M; e2fsck -fn img ->
+         # "Free blocks count wrong for group #0 (1973, counted=2007)", exit 4.
+         unwind=4, backends=["kissat"], cap_quick=300,
+         bound="3 (also 2) groups of 16 blocks behind block 0, last group 8..16 blocks, inode table 2 (1, 3) blocks, flex_bg with "
+               "s_log_groups_per_flex 1 / 2 (4 thorough); pre-state bitmap: per group a head of 0..4 blocks in use + one further block "
+               "anywhere, accounting invariant of ext2fs_initialize, BLOCK_UNINIT flags symbolic; bitmap = set model, allocator entry points real"),
 ]
 def _clamptime():
     """reproducible output of mke2fs -d: every source timestamp is clamped to the fixed clock, 0 included (source harness/C18/clamptime.c)"""
